@@ -355,6 +355,7 @@ func main() {
 		replay(o)
 		return
 	}
+	runNames(o, res, nil)
 	nWorkers := runtime.NumCPU()
 	N, K, nRandom, nMal, nFile := 4, 3, 20000, 20000, 300
 	if o.Tier == "thorough" {
@@ -613,6 +614,17 @@ func replay(o *hx.Opts) {
 	b, err := os.ReadFile(o.Replay)
 	if err != nil {
 		hx.Fatal(err)
+	}
+	var nr struct {
+		Replay struct {
+			Names *NameCase `json:"names"`
+		} `json:"replay"`
+	}
+	if json.Unmarshal(b, &nr) == nil && nr.Replay.Names != nil {
+		if runNames(o, hx.NewResult(o, "replay"), nr.Replay.Names) {
+			os.Exit(1)
+		}
+		return
 	}
 	var w struct {
 		Replay struct{ Case Case `json:"case"` } `json:"replay"`
